@@ -24,6 +24,7 @@ Record ostep := {
 Record hcase := {
   h_cfg : cfg; h_pol : upolicy; h_tab : list (str * str);
   h_login : option Z;              (* histories: virtual time of the login callback *)
+  h_conc : bool;                   (* the steps were in flight CONCURRENTLY: call logs cannot be attributed, not compared *)
   h_steps : list ostep }.
 
 Definition case := hcase.
@@ -48,7 +49,7 @@ Definition endpoint_eqb (a b : endpoint) : bool :=
   match a, b with EpRefresh, EpRefresh => true | EpValidate, EpValidate => true | EpProfile, EpProfile => true | _, _ => false end.
 
 (* model prediction vs observation for one step *)
-Definition step_mismatch (lower : str -> str) (c : cfg) (u : upolicy) (o : ostep) : bool :=
+Definition step_mismatch_gen (cmp_calls : bool) (lower : str -> str) (c : cfg) (u : upolicy) (o : ostep) : bool :=
   let rs := handle lower (o_now o) c u (o_req o) (o_ans o) in
   let out_ok :=
     match rs_out rs with
@@ -57,7 +58,11 @@ Definition step_mismatch (lower : str -> str) (c : cfg) (u : upolicy) (o : ostep
                 (if r_xhr (o_req o) then (o_status o =? 401) else (o_status o =? 302) && o_signin o)
     | Status n => negb (o_served o) && (o_status o =? n)
     end in
-  negb (out_ok && effect_close (rs_cookie rs) (o_cookie o) && list_eqb endpoint_eqb (rs_calls rs) (o_calls o)).
+  negb (out_ok && effect_close (rs_cookie rs) (o_cookie o) &&
+        (negb cmp_calls || list_eqb endpoint_eqb (rs_calls rs) (o_calls o))).
+Definition step_mismatch := step_mismatch_gen true.
+(* per-case: concurrent pairs do not compare call logs *)
+Definition case_step_mismatch (h : hcase) := step_mismatch_gen (negb (h_conc h)).
 
 (* ---- the property clauses as booleans on (presented session, answers) ---- *)
 Definition matched_any (allowed ug : list str) : bool := existsb (fun g => mem_str g allowed) ug.
